@@ -252,6 +252,8 @@ Definition sparse_run_timeline :=
   run_timeline_g predict predict_idem predict_zero true CIs sparse_CI_step sparse_advance_timeline sparse_CI_frame.
 Definition sparse_confirmed_frames_use_held_inputs :=
   confirmed_frames_use_held_inputs_g predict predict_idem predict_zero true CIs sparse_CI_step sparse_advance_timeline sparse_CI_frame sparse_CI_start.
+Definition sparse_host_broadcast_and_game :=
+  host_broadcast_and_game_g predict predict_idem predict_zero true CIs sparse_CI_step sparse_advance_timeline sparse_CI_frame sparse_CI_start.
 Definition sparse_sends_and_receipts :=
   sends_and_receipts_g predict predict_idem predict_zero true CIs sparse_CI_step sparse_advance_timeline sparse_CI_frame sparse_CI_start.
 Definition sparse_confirmed_frames_use_delivered_inputs :=
